@@ -971,4 +971,139 @@ def flatExample : FileP :=
         [] .nil [] [] [] [] [] false false {}) .nil) }
 
 example : flatValid flatExample = true := by decide
+/-! ### valid_base_accepted, larger family: scalar message trees with enums -/
+
+/-- a plain enum: at least one value, all numbered, no duplicate numbers, no alias option, nothing reserved -/
+def flatEnum (e : EnumP) : Bool :=
+  !e.values.isEmpty && e.values.all (fun v => v.number.isSome) &&
+  !hasDupNumber (e.values.map fun v => some (v.number.getD 0)) && !e.allowAlias &&
+  e.resRanges.isEmpty && e.resNames.isEmpty && e.features == {}
+
+theorem flat_validateEnum (scope : Str) (e : EnumP) (h : flatEnum e = true) :
+    validateEnum (buildEnum g998 scope e) = .ok () := by
+  simp only [flatEnum, Bool.and_eq_true, Bool.not_eq_true', List.isEmpty_iff, List.all_eq_true, beq_iff_eq] at h
+  obtain ⟨⟨⟨⟨⟨⟨hne, hnum⟩, hdup⟩, hal⟩, hrr⟩, hrn⟩, hf⟩ := h
+  have hcl : (buildEnum g998 scope e).isClosed = true := by
+    simp only [buildEnum, EnumD.isClosed, hf]; decide
+  have hp : (buildEnum g998 scope e).p = e := rfl
+  simp only [validateEnum, seq_ok_iff, guardV_ok_iff, allV_ok_iff, hp, hrr, hrn, hdup, hal, hcl, hne]
+  refine ⟨by simp [namesHaveDup], by simp [sortByStart, enumRangesBad], trivial, by simp, by simp, by simp, ?_⟩
+  intro v hv
+  have := hnum v hv
+  simp only [validateEnumValue, seq_ok_iff, guardV_ok_iff, hp, hrr, hrn]
+  cases hvn : v.number with
+  | none => rw [hvn] at this; cases this
+  | some x => simp [enumRangesHas]
+
+mutual
+/-- a message tree of plain scalar fields: any nesting depth, nested plain enums -/
+def treeMsg : MessageP → Bool
+  | .mk _ fields oneofs nested enums exts xr rr rn me ms feat =>
+    oneofs.isEmpty && enums.all flatEnum && exts.isEmpty && xr.isEmpty && rr.isEmpty && rn.isEmpty && !me && !ms &&
+    feat == {} && fields.all flatField && !hasDupNumber (fields.map fun f => some (f.number.getD 0)) && treeMsgs nested
+def treeMsgs : MessagePList → Bool
+  | .nil => true
+  | .cons m r => treeMsg m && treeMsgs r
+end
+
+mutual
+theorem tree_msg (v : VCtx) (hv : v.edition = editionProto2) (c : Ctx) (scope : Str) :
+    (m : MessageP) → treeMsg m = true →
+    validateMsg v (buildMsg c g998 scope m) = .ok () ∧ ∀ e ∈ msgResolveErrs (buildMsg c g998 scope m), e = none
+  | .mk name fields oneofs nested enums exts xr rr rn me ms feat, h => by
+    simp only [treeMsg, Bool.and_eq_true, List.isEmpty_iff, Bool.not_eq_true', beq_iff_eq, List.all_eq_true] at h
+    obtain ⟨⟨⟨⟨⟨⟨⟨⟨⟨⟨⟨ho, hen⟩, hx⟩, hxr⟩, hrr⟩, hrn⟩, hme⟩, hms⟩, hfe⟩, hff⟩, hdup⟩, hn⟩ := h
+    subst ho hx hxr hrr hrn hme hms hfe
+    have hg : mergeGo g998 {} = g998 := by decide
+    have hp2 : (v.edition == editionProto3) = false := by rw [hv]; decide
+    have hnest := tree_msgs v hv c (fullAppend scope name) nested hn
+    simp only [buildMsg, hg, List.length_nil, buildExts, buildOneofs]
+    constructor
+    · simp only [validateMsg, seq_ok_iff, guardV_ok_iff, allV_ok_iff, MessageP.messageSet, MessageP.resNames,
+        MessageP.resRanges, MessageP.extRanges, hp2]
+      refine ⟨by simp [namesHaveDup], by simp [sortByStart, fieldRangesBad], by simp [sortByStart, fieldRangesBad],
+        by simp [rangesOverlap], ?_, by simp, by simp, by simp, ?_, by simp [validateOneofs], ?_,
+        hnest.1, by simp [allV]⟩
+      · simp only [fieldNumbersConflict, buildFields_numbers]
+        simpa using hdup
+      · intro d hd
+        obtain ⟨p, hp, j, rfl⟩ := mem_buildFields _ _ _ _ _ _ _ d hd
+        exact flat_validateField v hv _ ⟨rfl, rfl, rfl⟩ c _ 0 j p (hff p hp)
+      · intro d hd
+        simp only [List.mem_map] at hd
+        obtain ⟨e, he, rfl⟩ := hd
+        exact flat_validateEnum _ e (hen e he)
+    · intro e he
+      simp only [msgResolveErrs, List.map_nil, List.append_nil, List.mem_append, List.mem_map] at he
+      rcases he with ⟨d, hd, rfl⟩ | he
+      · obtain ⟨p, hp, j, rfl⟩ := mem_buildFields _ _ _ _ _ _ _ d hd
+        exact (flatField_build c _ 0 j p (hff p hp)).1
+      · exact hnest.2 e he
+theorem tree_msgs (v : VCtx) (hv : v.edition = editionProto2) (c : Ctx) (scope : Str) :
+    (ms : MessagePList) → treeMsgs ms = true →
+    validateMsgs v (buildMsgs c g998 scope ms) = .ok () ∧ ∀ e ∈ msgsResolveErrs (buildMsgs c g998 scope ms), e = none
+  | .nil, _ => by simp [buildMsgs, validateMsgs, msgsResolveErrs]
+  | .cons m rest, h => by
+    simp only [treeMsgs, Bool.and_eq_true] at h
+    have h1 := tree_msg v hv c scope m h.1
+    have h2 := tree_msgs v hv c scope rest h.2
+    simp only [buildMsgs, validateMsgs, seq_ok_iff, msgsResolveErrs, List.mem_append]
+    refine ⟨⟨h1.1, h2.1⟩, ?_⟩
+    rintro e (he | he)
+    · exact h1.2 e he
+    · exact h2.2 e he
+end
+
+/-- The scalar-tree family: a proto2 file (syntax "proto2" or absent) of messages nested to ANY depth whose fields are
+plain scalars (15 scalar types, any label, distinct in-range numbers), with plain enums declared at file level and inside
+messages; all declared names valid and pairwise distinct by full name. -/
+def treeValid (p : FileP) : Bool :=
+  (p.syn == 2 || p.syn == 0) && !p.path.isEmpty && (isValidFullName p.pkg || p.pkg.isEmpty) && p.features == {} &&
+  p.enums.all flatEnum && p.exts.isEmpty && p.services.isEmpty && treeMsgs p.messages &&
+  (fileDecls p).all (fun d => isValidName d.2) && nodupB ((fileDecls p).map (·.1))
+
+/-- **valid_base_accepted (scalar-tree family).** Every file of the family is accepted, for every resolver and option. -/
+theorem valid_tree_accepted (env : Env) (p : FileP) (h : treeValid p = true) : newFile env p = .ok (build env p) := by
+  simp only [treeValid, Bool.and_eq_true, Bool.or_eq_true, beq_iff_eq, Bool.not_eq_true', List.isEmpty_iff,
+    List.all_eq_true] at h
+  obtain ⟨⟨⟨⟨⟨⟨⟨⟨⟨hsyn, hpath⟩, hpkg⟩, hfeat⟩, hen⟩, hex⟩, hsv⟩, hms⟩, hval⟩, hnd⟩ := h
+  have hed : fileEdition p = editionProto2 := by
+    rcases hsyn with h | h <;> simp [fileEdition, h]
+  have hff : fileFeatures p = g998 := by
+    simp only [fileFeatures, hed, hfeat]
+    decide
+  rw [newFile_ok_iff]
+  refine ⟨⟨?_, ?_, ?_, ?_⟩, rfl⟩
+  · have h1 : (p.syn == 1) = false := by rcases hsyn with h | h <;> simp [h]
+    have h9 : (p.syn == 9) = false := by rcases hsyn with h | h <;> simp [h]
+    have hpk : (!isValidFullName p.pkg && !p.pkg.isEmpty) = false := by
+      rcases hpkg with h | h <;> simp [h]
+    have hdf : (defaultsFor editionProto2).isNone = false := by decide
+    simp [checkHeader, h1, hpath, h9, hpk, hed, hdf]
+  · exact checkDecls_of_valid _ _ (fun d hd => hval d hd) hnd (fun _ _ => by simp)
+  · have := (tree_msgs ⟨env, [], editionProto2⟩ rfl (mkCtx env p) p.pkg p.messages hms).2
+    simp only [checkResolve, firstErr_ok_iff, build, hff, hex, hsv, buildExts, List.map_nil, List.flatMap_nil,
+      List.append_nil]
+    exact this
+  · simp only [validateFile, seq_ok_iff, allV_ok_iff, build, hff, hex, hed, buildExts, List.not_mem_nil, false_imp_iff,
+      implies_true, and_true]
+    refine ⟨?_, (tree_msgs _ rfl (mkCtx env p) p.pkg p.messages hms).1⟩
+    intro d hd
+    simp only [List.mem_map] at hd
+    obtain ⟨e, he, rfl⟩ := hd
+    exact flat_validateEnum _ e (hen e he)
+
+/-- the family is not empty: nesting three deep, enums at file level and inside a message -/
+def treeExample : FileP :=
+  { path := str "w/tree.proto", pkg := str "w", syn := 2
+    enums := [{ name := str "E", values := [{ name := str "E_A", number := some 1 }, { name := str "E_B", number := some (-2) }] }]
+    messages := .cons (.mk (str "A")
+      [{ name := str "x", number := some 1, label := some 2, type := 5 }] []
+      (.cons (.mk (str "B") [{ name := str "y", number := some 7, label := some 3, type := 12 }] []
+        (.cons (.mk (str "C") [] [] .nil [] [] [] [] [] false false {}) .nil)
+        [{ name := str "F", values := [{ name := str "F_A", number := some 0 }] }] [] [] [] [] false false {}) .nil)
+      [] [] [] [] [] false false {}) .nil }
+
+example : treeValid treeExample = true := by decide
+
 end C35
